@@ -113,6 +113,8 @@ func cmdCheck(args []string) {
 	var assumptions []string
 	trusted := map[string]bool{}
 	nfun := 0
+	nAll, nWide := 0, 0
+	wide := os.Getenv("SODVC_WIDE") == "1" // triage aid only: a failing obligation tagged for another property says which clause to look at; never set by check.sh
 	for _, name := range v.spec.Order {
 		c := v.spec.Contracts[name]
 		if !hasProp(c.Serves, *prop) {
@@ -136,9 +138,16 @@ func cmdCheck(args []string) {
 			rep.Status = "engine-error: " + err.Error()
 		}
 		for _, o := range fo {
+			nAll++
 			if hasProp(o.Props, *prop) {
 				obls = append(obls, o)
 				rep.Obligations++
+			} else if wide && !o.IsCover {
+				// wide selection: every obligation of a function serving the property, whatever its tag
+				o.Wide = true
+				obls = append(obls, o)
+				rep.Obligations++
+				nWide++
 			}
 		}
 		for _, a := range c.Lemmas {
@@ -381,6 +390,7 @@ func cmdCheck(args []string) {
 	os.MkdirAll(filepath.Join(*outDir, "evidence"), 0755)
 	b, _ := json.MarshalIndent(ev, "", " ")
 	os.WriteFile(filepath.Join(*outDir, "evidence", *prop+".json"), b, 0644)
+	fmt.Printf("%s %s: selection: %d of %d generated obligations (%d by wide mode)\n", *prop, *tier, len(obls), nAll, nWide)
 	fmt.Printf("%s %s: %d functions under contract, %d/%d obligations discharged, %d suspended by known findings, %d failed, %.1fs\n",
 		*prop, *tier, nfun, discharged, total, len(suspended), len(failed), time.Since(t0).Seconds())
 	if exit != 0 {
